@@ -64,6 +64,8 @@ OPS = [
     ("t1ra", {"text": "Foo v. Bar, 1 U.S. 1 (1999). Id. at 5. supra,§,", "remove_ambiguous": True}),
     ("markup2", {"markup": "<p><i>Foo v. Bar</i>, 1 U.S. 1 (1999). In <i>Bar</i> we held.</p>", "steps": ["html"]}),
     ("t4", {"text": "Adarand v. Pena, 515 U.S. ___ (1995). Adarand, 515 U.S., at ___. See 1 F.2d at ___."}),
+    # 'html' not first in the caller's list (the list object itself must come back untouched)
+    ("markup3", {"markup": "<p><i>Foo v. Bar</i>, 1 U.S. 1 (1999). In <i>Bar</i> we held.</p>", "steps": ["inline_whitespace", "html", "all_whitespace"]}),
 ]
 # Generated families of operations that collide pairwise on part of their input (same party names in other roles, same
 # markup under other cleaning steps, same text under another option, same reporter string under another year): all ORDERED
@@ -119,7 +121,8 @@ def run_op(op, tok="AC"):
         steps = list(op.get("steps", ["html", "all_whitespace"]))
         before = list(steps)
         cits = get_citations(markup_text=op["markup"], clean_steps=steps, tokenizer=tk)
-        assert steps == before, "clean_steps argument was modified"
+        if steps != before:
+            raise RuntimeError(f"the caller's clean_steps list was modified: {before} -> {steps}")
     else:
         cits = get_citations(op["text"], remove_ambiguous=op.get("remove_ambiguous", False), tokenizer=tk)
     return cits
